@@ -14,6 +14,7 @@ import Nitime.Model.F64
 import Nitime.Model.Units
 import Nitime.Model.Proto
 import Nitime.Generated.Units
+import Nitime.Generated.C01Ctor
 
 namespace Nitime.C01
 open Nitime
@@ -141,6 +142,149 @@ def reduce (op : RedOp) (t : TVal) : Except Err TVal :=
 /-- `convert_unit` only relabels -/
 def convertUnit (t : TVal) (u : TimeUnit) : TVal := { t with unit := u }
 
+/-! ### live time objects: the unit LABEL and the conversion FACTOR as two attributes (session 3)
+
+`TimeArray` keeps `time_unit` (what the object says its unit is) and `_conversion_factor` (what bare
+numbers are multiplied with in `_convert_if_needed`, and what `__repr__` divides by) as two separate
+instance attributes.  Every entry point that makes a time object sets them along one of the GENERATED
+paths (`Generated.C01Ctor`); a `Discipline` collects these tables, `Discipline.current` is the one of
+the source as it is today. -/
+open C01Attr
+
+structure Attrs where
+  label : TimeUnit
+  fac : Nat
+  deriving Repr, DecidableEq
+
+/-- the attributes one path leaves: `req` = value of the unit expression of the call, `inh` = what the
+object carried before the explicit assignments (left there by `__array_finalize__`) -/
+def applyPath (p : Path) (req : TimeUnit) (inh : Attrs) : Attrs :=
+  let label := match p.label with
+    | .arg => req
+    | .lit s => (TimeUnit.ofString? s).getD inh.label
+    | _ => inh.label
+  let fac := match p.factor with
+    | .tableOfLabel => Generated.factor label
+    | _ => inh.fac
+  { label := label, fac := fac }
+
+structure Discipline where
+  /-- `TimeArray.__new__` per (copy, data is a time object) -/
+  new : Bool → Bool → List Path
+  /-- `__array_finalize__` per (obj is a time object) -/
+  finalize : Bool → List Path
+  convert : List Path
+  /-- reductions min max sum ptp -/
+  red : String → RedKind
+
+def Discipline.current : Discipline :=
+  { new := Generated.C01Ctor.timeArrayNew, finalize := Generated.C01Ctor.timeArrayFinalize,
+    convert := Generated.C01Ctor.convertUnit, red := Generated.C01Ctor.timeArrayReduction }
+
+/-- the discipline of `UniformTime` objects handed to the same operators (its own `__array_finalize__`;
+`convert_unit` and the operators are TimeArray's; min/max are element views, sum is ndarray's) -/
+def Discipline.currentUniform : Discipline :=
+  { new := Generated.C01Ctor.timeArrayNew, finalize := Generated.C01Ctor.uniformFinalize,
+    convert := Generated.C01Ctor.convertUnit, red := Generated.C01Ctor.uniformReduction }
+
+/-- the path taken (the table lists every return path of the cell; the model follows the first) -/
+def pick (ps : List Path) : Path := ps.headD ⟨.other, .other⟩
+
+/-- a live time object -/
+structure TObj where
+  ps : List Int
+  scalar : Bool
+  attrs : Attrs
+  deriving Repr, DecidableEq
+
+def TObj.ofTVal (t : TVal) : TObj := ⟨t.ps, t.scalar, ⟨t.unit, Generated.factor t.unit⟩⟩
+def TObj.toTVal (o : TObj) : TVal := ⟨o.ps, o.attrs.label, o.scalar⟩
+
+inductive ViewKind where
+  | same                      -- view(TimeArray), copy, copy.copy, deepcopy, asanyarray, astype(int64), ravel of 1-d
+  | flat                      -- reshape(-1): a 0-d object becomes 1-d
+  | neg
+  | item (i : Nat)            -- t[i]
+  | slice (a b c : Nat)       -- t[a:b:c], 0 ≤ a ≤ b ≤ len, c ≥ 1
+  | fancy (is : List Nat)     -- t[[i, j, …]]
+  deriving Repr
+
+def everyNth (c : Nat) : List Int → Nat → List Int
+  | [], _ => []
+  | x :: xs, k => if k % c = 0 then x :: everyNth c xs (k + 1) else everyNth c xs (k + 1)
+
+def ViewKind.payload : ViewKind → List Int × Bool → List Int × Bool
+  | .same, p => p
+  | .flat, (ps, _) => (ps, false)
+  | .neg, (ps, sc) => (ps.map (fun x => -x), sc)
+  | .item i, (ps, _) => ([ps.getD i 0], true)
+  | .slice a b c, (ps, _) => (everyNth (max c 1) ((ps.drop a).take (b - a)) 0, false)
+  | .fancy is, (ps, _) => (is.map (fun i => ps.getD i 0), false)
+
+inductive Step where
+  | wrap (u : Option TimeUnit) (copy : Bool)   -- TimeArray(o, time_unit=u, copy=copy)
+  | conv (u : TimeUnit)                        -- o.convert_unit(u)
+  | view (k : ViewKind)                        -- anything that goes through __array_finalize__(obj = o)
+  | strip                                      -- a view made from a bare ndarray / unpickling: __array_finalize__(no time object)
+  | red (r : RedOp)
+  | ar (op : ArithOp) (v : Operand)
+  deriving Repr
+
+def RedOp.name : RedOp → String
+  | .min => "min" | .max => "max" | .sum => "sum" | .ptp => "ptp"
+
+/-- `_convert_if_needed` on a live object: bare numbers are multiplied with the FACTOR attribute -/
+def convertIfNeededO (self : TObj) : Operand → List Int × Bool
+  | .time t => (t.ps, t.scalar)
+  | .bare sc xs => ((asarray xs).map (toPsF self.attrs.fac), sc)
+
+/-- attributes of a new view of `o` -/
+def viewAttrs (D : Discipline) (o : TObj) : Attrs := applyPath (pick (D.finalize true)) o.attrs.label o.attrs
+
+def arithO (D : Discipline) (op : ArithOp) (self : TObj) (val : Operand) : Except Err TObj :=
+  let (b, sb) := convertIfNeededO self val
+  match broadcast op.fn self.ps self.scalar b sb with
+  | .ok (r, sc) => .ok { ps := r, scalar := sc, attrs := viewAttrs D self }
+  | .error e => .error e
+
+def compareO (op : CmpOp) (self : TObj) (val : Operand) : Except Err (List Bool × Bool) :=
+  let (b, sb) := convertIfNeededO self val
+  broadcast op.fn self.ps self.scalar b sb
+
+def redValue (op : RedOp) (ps : List Int) : Int :=
+  match op with
+  | .min => listMin ps
+  | .max => listMax ps
+  | .sum => listSum ps
+  | .ptp => listMax ps - listMin ps
+
+def stepO (D : Discipline) (o : TObj) : Step → Except Err TObj
+  | .wrap u copy =>
+    .ok { o with attrs := applyPath (pick (D.new copy true)) (u.getD o.attrs.label) o.attrs }
+  | .conv u => .ok { o with attrs := applyPath (pick D.convert) u o.attrs }
+  | .view k =>
+    let (ps, sc) := k.payload (o.ps, o.scalar)
+    .ok { ps := ps, scalar := sc, attrs := viewAttrs D o }
+  | .strip => .ok { o with attrs := applyPath (pick (D.finalize false)) .s ⟨.s, Generated.factor .s⟩ }
+  | .red r =>
+    if o.ps.isEmpty then .error .valueError else
+    match D.red r.name with
+    | .relabel =>
+      -- TimeArray(value, time_unit=base_unit) and then convert_unit(self.time_unit)
+      .ok { ps := [redValue r o.ps], scalar := true,
+            attrs := applyPath (pick D.convert) o.attrs.label (applyPath (pick (D.new true false)) .ps ⟨.ps, 1⟩) }
+    | _ => .ok { ps := [redValue r o.ps], scalar := true, attrs := viewAttrs D o }
+  | .ar op v => arithO D op o v
+
+/-- every object of a history, oldest first (the history stops at the first refused step) -/
+def trace (D : Discipline) (o : TObj) : List Step → List TObj
+  | [] => [o]
+  | s :: ss => match stepO D o s with
+    | .ok o' => o :: trace D o' ss
+    | .error _ => [o]
+
+def lastO (D : Discipline) (o : TObj) (ss : List Step) : TObj := (trace D o ss).getLastD o
+
 /-! ### line protocol -/
 open Proto
 
@@ -171,6 +315,54 @@ def parseOperand? (s : String) : Option Operand :=
   match s.splitOn ":" with
   | ["N", sc, xs] => (parseNums? xs).map (Operand.bare (sc = "1"))
   | _ => (parseT? s).map .time
+
+def parseArith? : String → Option ArithOp
+  | "add" => some .add | "sub" => some .sub | "radd" => some .radd | "rsub" => some .rsub | _ => none
+def parseCmp? : String → Option CmpOp
+  | "lt" => some .lt | "le" => some .le | "gt" => some .gt | "ge" => some .ge | "eq" => some .eq | _ => none
+def parseRed? : String → Option RedOp
+  | "min" => some .min | "max" => some .max | "sum" => some .sum | "ptp" => some .ptp | _ => none
+
+/-- one step of a history: `wrap=<unit|none>=<copy 0|1>`, `conv=<unit>`, `same`, `flat`, `neg`, `item=<i>`,
+`slice=<a>=<b>=<c>`, `fancy=<i,j,…>`, `strip`, `red=<min|max|sum|ptp>`, `ar=<add|sub|radd|rsub>=<operand>` -/
+def parseStep? (s : String) : Option Step :=
+  match s.splitOn "=" with
+  | ["wrap", u, c] => (parseUnitOpt? u).map fun u => .wrap u (c = "1")
+  | ["conv", u] => (TimeUnit.ofString? u).map .conv
+  | ["same"] => some (.view .same)
+  | ["flat"] => some (.view .flat)
+  | ["neg"] => some (.view .neg)
+  | ["item", i] => i.toNat?.map fun i => .view (.item i)
+  | ["slice", a, b, c] => match a.toNat?, b.toNat?, c.toNat? with
+    | some a, some b, some c => some (.view (.slice a b c))
+    | _, _, _ => none
+  | ["fancy", is] => (parseNatList? is).map fun is => .view (.fancy is)
+  | ["strip"] => some .strip
+  | ["red", r] => (parseRed? r).map .red
+  | ["ar", op, v] => match parseArith? op, parseOperand? v with
+    | some op, some v => some (.ar op v)
+    | _, _ => none
+  | _ => none
+
+def parseSteps? (s : String) : Option (List Step) :=
+  if s = "-" then some [] else (s.splitOn ";").mapM parseStep?
+
+/-- `T:<label>:<0|1>:<ps>~<factor>` -/
+def showO (o : TObj) : String := showT o.toTVal ++ "~" ++ toString o.attrs.fac
+
+/-- a history on one live object and a final operator with `val`: every object made on the way, then the result -/
+def histLine (D : Discipline) (src : TVal) (steps : List Step) (op : String) (val : Operand) : String :=
+  let tr := trace D (TObj.ofTVal src) steps
+  let o := tr.getLastD (TObj.ofTVal src)
+  let fin := match parseArith? op, parseCmp? op with
+    | some a, _ => (match arithO D a o val with
+      | .ok r => "ok " ++ showO r
+      | .error _ => "err ValueError")
+    | none, some c => (match compareO c o val with
+      | .ok (bs, sc) => s!"ok B:{if sc then "1" else "0"}:{showBoolList bs}"
+      | .error _ => "err ValueError")
+    | none, none => "bad-op"
+  "ok " ++ "|".intercalate (tr.map showO) ++ " # " ++ fin
 
 def showExceptT : Except Err TVal → String
   | .ok t => "ok " ++ showT t
@@ -220,6 +412,10 @@ def handle (args : List String) : String :=
       | "min" => r .min | "max" => r .max | "sum" => r .sum | "ptp" => r .ptp
       | _ => "bad-op"
     | none => "bad-op"
+  | ["hist", cls, t, steps, op, v] => match parseT? t, parseSteps? steps, parseOperand? v with
+    | some t, some ss, some v =>
+      histLine (if cls = "U" then Discipline.currentUniform else Discipline.current) t ss op v
+    | _, _, _ => "bad-op"
   | ["convert", t, u] => match parseT? t, TimeUnit.ofString? u with
     | some t, some u => "ok " ++ showT (convertUnit t u)
     | _, _ => "bad-op"
